@@ -1,6 +1,7 @@
 -- Root of the library: everything the checks build.
-import OsacaVerif.Model.Text
-import OsacaVerif.Model.RegDep
-import OsacaVerif.Spec.RegUniverse
-import OsacaVerif.Lemmas.Text
+import OsacaVerif.Props.C01
+import OsacaVerif.Props.C02
 import OsacaVerif.Props.C12
+import OsacaVerif.Props.C15
+import OsacaVerif.Driver.C01
+import OsacaVerif.Driver.C12
